@@ -3,6 +3,8 @@
 import json, subprocess
 props = [json.loads(l) for l in open('/verif/properties.jsonl')]
 T = {
+ "C15": ("exploration", "deterministic simulation: name-centred scripts on the engine (create/rename sinks into populated directories, lookups by case variants, alias, near misses) vs tree model and raw image; code-point and length sweeps hosted on the simulator"),
+ "C16": ("exploration", "deterministic simulation: colliding directory populations (6-char form, 2-char+hash form, removals) with raw short-name legality / uniqueness / LFN-checksum checks by the independent decoder after every call"),
  "C01": ("exploration", "deterministic simulation: seeded multi-client namespace histories on SimDisk vs in-memory tree model + independent raw decode, benign device faults (EINTR, short reads/writes)"),
  "C02": ("exploration", "deterministic simulation: seeded interleaved file I/O on several open files vs byte-array model, boundary-biased offsets, benign device faults"),
  "C03": ("exploration", "deterministic simulation: independent fsck of the raw image after every simulated API call"),
